@@ -10,7 +10,8 @@ import (
 
 func init() {
 	register("C03", &propSpec{
-		run: runC03,
+		technique: "static analysis: CFG guard dominance on flag φ-webs (basicauth/internal), all-paths normalisation flow in Path.Matches, effect-class ordering over the extracted directive→handler map",
+		run:       runC03,
 		decided: "R1 in basicauth the next handler runs only for OPTIONS, for unprotected paths, or after the flag that is set solely behind all three credential checks; every rule is consulted (the rule loop has no early exit) and the protected flag is raised without any credential condition; internal returns 404 for every configured prefix before anything runs; " +
 			"R2 Path.Matches compares operands that were both path.Clean'ed on every data path and, in the case-insensitive branch, both lower-cased; " +
 			"R3 in the fixed directive list every handler that can rewrite the request path before calling Next comes before basicauth, and basicauth and internal come before every handler that can produce content from the site or a backend; " +
